@@ -601,7 +601,9 @@ func classifyResult(v ssa.Value, at *ssa.BasicBlock, reach map[*ssa.BasicBlock]*
 		}
 		return oc
 	case *ssa.Call:
-		if cal := staticCallee(x); cal != nil && cal.Blocks != nil {
+		if cal := staticCallee(x); cal != nil && cal.Blocks != nil && !classifyInProgress[cal] {
+			classifyInProgress[cal] = true
+			defer delete(classifyInProgress, cal)
 			// a function all of whose returns are non-nil (newClientBugError)
 			var oc outcomeSet
 			ok := true
@@ -808,3 +810,6 @@ func (a *stateAnalysis) freshIn(v ssa.Value, b *ssa.BasicBlock) bool {
 }
 
 var debugState = os.Getenv("VERIF_DEBUG_STATE") != ""
+
+// classifyInProgress guards classifyResult against mutually recursive callees.
+var classifyInProgress = map[*ssa.Function]bool{}
